@@ -571,13 +571,24 @@ def cont_of(case: dict, j: int) -> str:
 # declares `"$id": "#<name>"` and is referenced as `"$ref": "#<name>"` — the IDENTICAL string.  `<name>` is a
 # parameter of the case (`case["anchors"][j]`; absent / null = the historical `anc{j}`).  The family: every
 # non-empty string that does not start with "/" ("#" alone is the document root and "#/…" is a JSON pointer:
-# those are not anchors, the property's `$id`/anchor clause does not speak about them), the names emitted into one
+# those are not anchors, the property's `$id`/anchor clause does not speak about them) and does not end in "#/"
+# (see below), the names emitted into one
 # file pairwise different (two subschemas declaring the same `$id` make the reference ambiguous).  Inside the
 # family sit the plain names of the JSON-Schema drafts (`^[A-Za-z][-A-Za-z0-9.:_]*$`, class `spec`) and the near
 # misses that the generator accepts as well and resolves by string identity (its rule is "`#` followed by
 # anything but `/`"): digit-/underscore-/hyphen-initial, non-ASCII letters, blanks and percent signs, further
 # `#`, a later `/`, other punctuation.  Every class was run on the unchanged tree before it was admitted.
+# One more exclusion, found by the systematic scope: a name that ends in `#/` — `JsonSchemaObject.validate_ref`
+# reads a `$ref` that ends in `#/` as the root pointer `…#` and drops the `/`, so the reference `##/` is not the
+# string `##/` any more when it is looked up (KeyError '##'); `#` cannot occur inside a URI fragment at all, and
+# the property does not promise anything for a reference whose spelling the `$ref` reader normalises away.
 PLAIN_NAME = r"[A-Za-z][-A-Za-z0-9.:_]*"
+
+
+def in_anchor_family(name) -> bool:
+    return isinstance(name, str) and name != "" and name[0] != "/" and not name.endswith("#/")
+
+
 ANCHOR_POOLS: dict[str, list[str]] = {
     "letters": ["address", "Foo", "anchor", "Anchor", "ANCHOR", "item", "a", "Z", "thing", "Thing"],
     "hyphen": ["street-address", "order-line", "a-b", "x-", "a--b", "Pets-item"],
@@ -643,8 +654,9 @@ def check_anchor_family(case: dict) -> None:
     seen: set = set()
     for j in anchored_defs(case):
         a = anchor_of(case, j)
-        if not isinstance(a, str) or a == "" or a[0] == "/":
-            raise ValueError(f"anchor name {a!r} of definition {j}: '#' is the document root and '#/...' a JSON pointer, not an anchor")
+        if not in_anchor_family(a):
+            raise ValueError(f"anchor name {a!r} of definition {j} is outside the family: '#' is the document root, '#/...' a JSON pointer, "
+                             "and a reference ending in '#/' is rewritten by the $ref reader")
         if (files[j], a) in seen:
             raise ValueError(f"anchor name {a!r} declared twice in one file: the reference is ambiguous")
         seen.add((files[j], a))
@@ -671,7 +683,7 @@ def gen_anchor_names(rng: Rng, keys: list[str]) -> list[str]:
             else:
                 units = ["a", "b", "Z", "pet", "Pet", "1", "9", "_", "-", ".", ":", "\u00e9", " ", "%", "#", "/", "~", "$", "?"]
                 name = "".join(rng.choice(units) for _ in range(rng.range(1, 5)))
-            if name and name[0] != "/" and name not in out:
+            if in_anchor_family(name) and name not in out:
                 break
         else:
             name = f"anchor-{j}"
@@ -687,9 +699,9 @@ def anchor_scope_names() -> list[str]:
     length <= 2 over one representative per character class (lower/upper letter, digit, `_ - . :`, non-ASCII letter,
     blank, `%`, `#`, `/`, `~`) that are inside the family (not starting with `/`)"""
     out = [a for pool in ANCHOR_POOLS.values() for a in pool]
-    out += [a for a in ANCHOR_ALPHABET if a != "/"]
-    out += [a + b for a in ANCHOR_ALPHABET if a != "/" for b in ANCHOR_ALPHABET]
-    return list(dict.fromkeys(out))
+    out += list(ANCHOR_ALPHABET)
+    out += [a + b for a in ANCHOR_ALPHABET for b in ANCHOR_ALPHABET]
+    return [a for a in dict.fromkeys(out) if in_anchor_family(a)]
 
 
 def ref_to(case: dict, i_from: int | None, j: int, kind: str = "ref") -> str:
@@ -1658,7 +1670,7 @@ def anchor_names_of_disagreements(inputs: list) -> list[str]:
             elif "#" in s:
                 cands.append(s.split("#", 1)[1])
             for a in cands:
-                if a and a[0] != "/" and len(a) <= 80 and a not in out:
+                if in_anchor_family(a) and len(a) <= 80 and a not in out:
                     out.append(a)
     return out
 
@@ -1686,7 +1698,7 @@ def anchor_scope_cases(name: str) -> list[dict]:
     ]
 
 
-def campaign_e2e_anchor_scope(ck: Check, derived: list[str], label: str, budget_s: float = 45.0) -> None:
+def campaign_e2e_anchor_scope(ck: Check, derived: list[str], label: str, budget_s: float = 45.0, sample: int | None = None) -> None:
     """failing-input search over the anchor-name family: the names derived from the disagreements, one-character
     variations of them, and the systematic small scope `anchor_scope_names()`; the names on which the pattern object
     of the code no longer agrees with the reviewed rule are tried first. Stops at the first name that gives a
@@ -1695,9 +1707,10 @@ def campaign_e2e_anchor_scope(ck: Check, derived: list[str], label: str, budget_
     t0 = time.time()
     names = list(derived)
     for d in derived[:12]:
-        names += [d + x for x in ANCHOR_ALPHABET] + [x + d for x in ANCHOR_ALPHABET if x != "/"]
-    names += anchor_scope_names()
-    names = [a for a in dict.fromkeys(names) if a and a[0] != "/"]
+        names += [d + x for x in ANCHOR_ALPHABET] + [x + d for x in ANCHOR_ALPHABET]
+    scope = anchor_scope_names()
+    names += scope if sample is None else ck.rng.fork("anchor-scope" + label).sample(scope, sample)
+    names = [a for a in dict.fromkeys(names) if in_anchor_family(a)]
     first = sorted(id_pattern_changed_on(names), key=lambda a: not anchor_shape(a).startswith("spec"))  # stable: plain names of the drafts first
     camp.hit(f"names-the-pattern-object-rejects:{min(len(first), 9)}{'+' if len(first) > 9 else ''}")
     names = list(dict.fromkeys(first + names))
@@ -1723,7 +1736,7 @@ def campaign_e2e_anchor_scope(ck: Check, derived: list[str], label: str, budget_
                     shorter = best[:i] + best[i + 1:]
                     # a plain name of the drafts stays one: the replay should show the strongest witness
                     same = anchor_shape(shorter).split(":")[0] == anchor_shape(best).split(":")[0]
-                    if shorter and shorter[0] != "/" and same and fails(shorter):
+                    if in_anchor_family(shorter) and same and fails(shorter):
                         best, progress = shorter, True
                         break
             # the failure of the shortest name goes first (it becomes the replay)
@@ -1791,6 +1804,14 @@ def run(ck: Check) -> None:
         "local pointers, '#', plain relative file references; URLs, base_url, $id/anchors, root_id, remove_suffix_number, "
         "parent_scoped_naming are outside the model (answered `unmodelled`, counted)",
         "inflect (get_singular_name) is an oracle parameter: the answers of the real function are handed to the model",
+        "$id / anchors: the model has the TEST `isIdRef` (which references go to the id registry; the pattern text, its flags and its one use are regenerated "
+        "from reference.py and tied by `id_pattern_is_reviewed`; that `isIdRef` is the meaning of that regular expression under re.match is a reviewed reading, "
+        "compared with the real pattern object on every run) but not the registry: anchor RESOLUTION is exercised end-to-end only. End-to-end family of anchors: "
+        "`$id: \"#<name>\"` on an entry of definitions / $defs (not on nested subschemas), referenced from the same file by the identical string `#<name>` "
+        "(from another definition, from itself, from the root object); <name> any non-empty string that does not start with `/` (`#` is the root, `#/...` a JSON pointer), "
+        "does not end in `#/` (JsonSchemaObject.validate_ref rewrites a `$ref` ending in `#/` to the root pointer) and is declared once per file; "
+        "percent-encoded and literal spellings of one name are different names; OpenAPI schema objects have no `$id` (no anchors there); "
+        "`other.json#name` (an anchor of another file) is not supported by the generator and not part of the family",
         "pathlib on POSIX without symlinks below the base path",
         "theorems hold for every class-name generator; `name_is_classform` speaks of that function, the concrete default form is only tested",
         "multi-document input: files of one flat directory, references `other.json#/pointer`, `other.json`, `#/pointer`; Model/ResolverMultidoc starts from the "
@@ -1805,6 +1826,8 @@ def run(ck: Check) -> None:
         "classForm/validName": "distinct inputs whose result differs from the input",
         "joinPath": "distinct part lists with >= 2 non-empty parts",
         "resolveRef": "distinct (root, ref) that resolve (no exception) on the real class",
+        "isIdRef": "distinct strings `#x...` of length >= 2 (anchor-shaped or pointer-shaped)",
+        "anchor-scope": "distinct documents on which the oracle passed (3 documents per anchor name)",
         "uniqueName": "distinct cases in which a suffix had to be appended",
         "modpass": "distinct cases in which the pass renamed at least one class",
         "worklist": "distinct documents whose parse reserved at least one pointer",
@@ -1825,6 +1848,9 @@ def run(ck: Check) -> None:
     campaign_multidoc(ck, 200 if quick else 1500, exhaustive=not quick)
     c06_dirs.campaign_dirs(ck, 120 if quick else 1500)
     c06_dirs.campaign_basepath(ck, 300 if quick else 3000)
+    # the systematic scope of the anchor-name family that the failing-input search enumerates is itself part of
+    # the regular run (all of it in the thorough tier, a seeded sample of the names in the quick tier)
+    campaign_e2e_anchor_scope(ck, [], "", budget_s=20.0 if quick else 120.0, sample=60 if quick else None)
     if not quick:
         campaign_e2e_exhaustive(ck, CORE_KEYS, 4, "")
     ck.search_hooks.append(search_embed_disagreements)
